@@ -13,7 +13,7 @@ PRE = set("C03-6 C06-5 C07-5 C08-4 C08-5 C08-6 C09-4 C09-5 C11-4 C11-5 C11-6 C12
           "C16-5 C16-6 C17-6 C18-4 C19-6 C20-4 C20-5 C20-6".split())
 rows = {}
 for line in open(SUM):
-    m = re.match(r"^(C\d\d)_(\d)([a-z]?)\s+demo_clean=(\S+) demo_patched=(\S+) \| (.*)$", line.strip())
+    m = re.match(r"^(C\d\d)_(\d+)([a-z]?)\s+demo_clean=(\S+) demo_patched=(\S+) \| (.*)$", line.strip())
     if not m:
         continue
     prop, k, rerun, c0, c1, rest = m.groups()
@@ -28,7 +28,8 @@ for line in open(SUM):
     e["runs"].append({"after_strengthening": bool(rerun), "checks": checks})
 for (prop, k), e in sorted(rows.items()):
     src = (f"/tmp/seed/{prop}/_seed/{k}" if int(k) <= 3 else
-           f"/tmp/seed2/{prop}/_seed/{int(k) - 3}" if int(k) <= 6 else f"/tmp/seed4/{prop}/_seed/{int(k) - 6}")
+           f"/tmp/seed2/{prop}/_seed/{int(k) - 3}" if int(k) <= 6 else
+           f"/tmp/seed4/{prop}/_seed/{int(k) - 6}" if int(k) <= 9 else f"/tmp/seed5/{prop}/_seed/{int(k) - 9}")
     if not os.path.exists(f"{src}/patch.diff"):
         continue
     dst = f"/verif/seeded/{prop}-{k}"
